@@ -453,6 +453,11 @@ def sc_soft_limit(params, obs, save):
     # when the pool has none (stale-signal trap on a one-worker pool)
     h2 = pool.apply_async(tasks.t_catch_soft, ('next', params.get('next_dur', 1.5), True),
                           soft_timeout=params.get('next_soft'))
+    if params.get('close_while_running'):
+        # the shutdown drain of the result handler must not scan a second time
+        _wait_for(lambda: h.accepted(), 10)
+        pool.close()
+        threading.Thread(target=pool.join, daemon=True).start()
     _wait_for(lambda: h.ready(), params['dur'] + 25)
     obs['outcome'] = _outcome(lambda: h.get(0)) if h.ready() else ['unresolved']
     _wait_for(lambda: h2.ready(), params.get('next_dur', 1.5) + 25)
